@@ -88,6 +88,7 @@ def usb_reader_semantics(program, n=8, head=(0xaa, 0x55), length=20):
     'computed_ok': bool, 'stored_ok': bool}; raises A.Unknown when not interpretable"""
     fn = program.fn('decoder', 'NMEA2000Decoder.decode_usb')
     utils = {q: f for q, f in program.mod('utils').defs.items() if '.' not in q}
+    dec_methods = {q.split('.', 1)[1]: f for q, f in program.mod('decoder').defs.items() if q.startswith('NMEA2000Decoder.') and q.count('.') == 1}
     pk = A.ABytes(([('c', head[0]), ('c', head[1])] + [A.sym_byte('pk', i) for i in range(2, 9)] + [('c', n)] + [A.sym_byte('pk', i) for i in range(10, max(20, length))])[:length])
     it0 = A.Interp()
     want = A.ALin({}, 0)
@@ -108,12 +109,16 @@ def usb_reader_semantics(program, n=8, head=(0xaa, 0x55), length=20):
             if name.endswith('._extract_header'):
                 return (A.sym_int('H.pgn', 18), A.sym_int('H.src', 8), A.sym_int('H.dst', 8), A.sym_int('H.prio', 3))
             if name == 'self._decode':
+                args_ = [it.expr(a, env) for a in call.args[:4]]
+                if any(isinstance(a_, A.AOpaque) for a_ in args_):
+                    # what reaches _decode was produced by something the interpreter did not follow (which may as well have rejected the packet)
+                    raise A.Unknown(f"_decode reached with arguments that were not followed: {args_!r}"[:200])
                 reached.append(True)
                 return A.AOpaque('message')
             if name in ('datetime.now', 'datetime.strptime', 'timedelta', 'binascii.hexlify'):
                 return A.AOpaque(name)
             return NotImplemented
-        it = A.Interp(hook=hook, skip=is_logger, functions=utils, cmp_oracle=oracle)
+        it = A.Interp(hook=hook, skip=is_logger, functions=utils, cmp_oracle=oracle, module=A.ModuleEnv(program.mod('decoder').tree), methods=dec_methods)
         try:
             it.call_function(fn, [A.AObj(), pk])
         except A.RaiseSignal:
@@ -182,7 +187,9 @@ def decode_with(program, method, packet, extra_args=()):
         if name in ('datetime.now', 'datetime.strptime', 'timedelta', 'binascii.hexlify'):
             return A.AOpaque(name)
         return NotImplemented
-    it = A.Interp(hook=hook, skip=is_logger)
+    dec_methods = {q.split('.', 1)[1]: f for q, f in program.mod('decoder').defs.items() if q.startswith('NMEA2000Decoder.') and q.count('.') == 1}
+    utils = {q: f for q, f in program.mod('utils').defs.items() if '.' not in q and q != 'calculate_canbus_checksum'}
+    it = A.Interp(hook=hook, skip=is_logger, module=A.ModuleEnv(program.mod('decoder').tree), methods=dec_methods, functions=utils)
     selfo = A.AObj()
     try:
         it.call_function(fn, [selfo, packet] + list(extra_args))
@@ -204,6 +211,21 @@ def describe_items(items):
         else:
             out.append('?')
     return out
+
+def followed(x):
+    """the interpreter produced a value it actually computed (not its "don't know": an opaque value, an integer without provenance, nothing)"""
+    if x is None or isinstance(x, A.AOpaque):
+        return False
+    if isinstance(x, A.AInt) and x.v is None and x.vec() is None:
+        return False
+    return True
+
+def judge_int(chk, x, expected_bits, rule, inst, **kw):
+    """compare provenance with the expected vector; a value the interpreter could not follow is a refusal, never an alarm"""
+    if not followed(x):
+        chk.unknown(rule, inst, f"the value was not followed by the interpreter: {x!r}", kw.get('file', ''), kw.get('line', 0))
+        return None
+    return chk.check(int_matches(x, expected_bits), rule, inst, **kw)
 
 def int_matches(x, expected_bits):
     """AInt carries exactly the expected provenance vector"""
